@@ -288,7 +288,8 @@ WiringPortRef wire_node(Scope &sc, const JV &st, std::vector<WiringPortRef> ins)
         const std::int64_t ord = s.ord;
         s.ord++;
         std::string e = "[\"ev\"," + ident(v) + "," + jtime(t) + "," + std::to_string(ord) + ",[";
-        std::int64_t x = cfg->bias;
+        std::int64_t x = (cfg->mode == "max" || cfg->mode == "xor") ? 0 : cfg->bias;
+        std::size_t n_valid = 0;
         bool any_mod = false;
         if (cfg->n_in > 0) {
             auto in = v.input(t);
@@ -299,7 +300,14 @@ WiringPortRef wire_node(Scope &sc, const JV &st, std::vector<WiringPortRef> ins)
                 if (cfg->log_inputs) dump_input(e, c, cfg->deep); else e += "null";
                 bool valid = false;
                 try { valid = c.valid(); any_mod = any_mod || c.modified(); } catch (...) {}
-                if (valid) { const std::int64_t k = i < cfg->coef.size() ? cfg->coef[i] : 1; x += k * contribution(c); }
+                if (valid) {
+                    const std::int64_t k = i < cfg->coef.size() ? cfg->coef[i] : 1;
+                    const std::int64_t v = k * contribution(c);
+                    if (cfg->mode == "max") { x = (n_valid == 0) ? v : std::max(x, v); }
+                    else if (cfg->mode == "xor") { x = (n_valid == 0) ? v : (x ^ v); }
+                    else x += v;
+                    ++n_valid;
+                }
             }
         }
         e += "],{";
